@@ -745,8 +745,62 @@ def _one_fn(F, name):
     return c[0]
 
 
+def r1_9(F, R):
+    R.rule("R1.9", "the prefix run is complete before it is acted on: in prefix::process_prefixes every read of the accumulated Prefix (its `global`, "
+                   "`long`, `outer` fields, or the value as a whole) is dominated by the return of complete_prefix, which scans the remaining "
+                   "\\global/\\long/\\outer tokens; a flag sampled earlier misses a `\\global` that is not the first prefix (`\\long\\global\\def`)")
+    fn = [f for f in F.fns.values() if strip_generics(f.name) == "texlang_stdlib::prefix::process_prefixes"]
+    if len(fn) != 1:
+        raise AnchorError("R1.9: process_prefixes: %d matches" % len(fn))
+    fn = fn[0]
+    cps = [(bi, t) for bi, t in fn.calls() if strip_generics(callee_name(t) or "").endswith("prefix::complete_prefix")]
+    if len(cps) != 1:
+        raise AnchorError("R1.9: %d complete_prefix calls in process_prefixes" % len(cps))
+    cb, ct = cps[0]
+    after = ct.get("t")
+    dom = dominators(fn)
+    PREFIX = 1  # first argument
+    n = 0
+    bad = []
+    for bi, b in enumerate(fn.blocks):
+        if b.get("cleanup"):
+            continue
+        items = [(st, st["rv"]) for st in b["s"] if st["k"] == "="]
+        for st, rv in items:
+            places = []
+            if rv["k"] in ("use", "cast"):
+                places.append(op_place(rv["op"]))
+            elif rv["k"] in ("ref", "discr", "rawptr"):
+                places.append(rv["pl"])
+            elif rv["k"] == "agg":
+                places += [op_place(o) for o in rv["ops"]]
+            for p in places:
+                if p is not None and p["l"] == PREFIX:
+                    n += 1
+                    if bi == cb:
+                        continue  # the `&mut prefix` handed to complete_prefix itself
+                    if after is None or after not in dom[bi]:
+                        bad.append(fn.loc(st))
+        t = b["t"]
+        if t["k"] == "call" and bi != cb:
+            for a in t["args"]:
+                p = op_place(a)
+                if p is not None and p["l"] == PREFIX:
+                    n += 1
+                    if after is None or after not in dom[bi]:
+                        bad.append(fn.loc(t))
+    R.floor("R1.9", "reads of the accumulated prefix", n, 4)
+    loc = "%s:%d" % (fn.file, fn.line)
+    if bad:
+        R.violation("R1.9", "process_prefixes/read-before-complete", "process_prefixes reads the accumulated prefix at %s before complete_prefix has scanned the "
+                    "rest of the prefix run: a later `\\global` (as in `\\long\\global\\def`) is not seen and the definition is made locally" % bad[0], bad[0])
+    else:
+        R.ok("R1.9", "process_prefixes", "%d reads, all after complete_prefix" % n, loc, how="dominator")
+
+
 def run(F, R, tier):
     r1_1(F, R)
+    r1_9(F, R)
     r1_2(F, R)
     r1_345(F, R)
     r1_6(F, R)
